@@ -458,6 +458,26 @@ def main():
         lines.append("VIOLATION property=%s replay=%s no-failing-input-found" % (pid, rp))
         violations = 1
 
+    # --- 5b. companion checks: parts of this property whose model/harness live with another
+    # property (e.g. the MANIFEST half of C09 is developed and exercised with C17) ---
+    companions = {}
+    for q in cfg.get("also_check", []):
+        env = dict(os.environ, VERIF_EVIDENCE_DIR=os.path.join(outdir, "companion_evidence"), VERIF_COMPANION_OF=pid)
+        rc, cout = run([sys.executable, os.path.abspath(__file__), q, tier], cwd=VERIF, env=env, timeout=7200)
+        vl = [l for l in cout.splitlines() if l.startswith("VIOLATION ")]
+        companions[q] = {"exit": rc, "violations": len(vl), "summary": (cout.strip().splitlines() or [""])[-1][:300]}
+        for l in cout.splitlines():
+            if l.startswith("KNOWN-FINDING: property=%s " % q):
+                l2 = "KNOWN-FINDING: property=%s " % pid + l.split(" ", 2)[2] + " (through the %s machinery)" % q
+                if l2 not in lines:
+                    lines.append(l2)
+        for l in vl:
+            lines.append(re.sub(r"property=\S+", "property=%s" % pid, l))
+            violations += 1
+        if rc != 0 and not vl:
+            lines.append("VIOLATION property=%s replay=%s no-failing-input-found" % (pid, os.path.join(outdir, "companion_evidence", q + ".json")))
+            violations += 1
+
     wall = time.time() - t0
     samples = list(stats.get("samples") or [])[:4]
     samples.append({"obligations": thms})
@@ -484,6 +504,7 @@ def main():
         "search_oracle_evaluations": searched,
         "exhaustive": False,
         "phase_end_s": phases,
+        "companion_checks": companions,
         "coqchk": coqchk,
     }
     ev = {"property_id": pid, "tier": tier, "seed": seed, "level": "proof", "coverage": cov,
